@@ -176,7 +176,9 @@ pub fn run_case(case: &Case) -> Result<(bool, Vec<&'static str>), Failure> {
     let mut bad_done = 0;
     let mut inner = || -> Result<(), Failure> {
         for (k, &i) in t.order.iter().enumerate() {
-            sim.node(t.path[i].as_str(), M { stages: t.created_stages[i], shuts_down: t.shuts_down[i], panics: t.panics[i] });
+            if let Err((msg, loc)) = catch(|| sim.node(t.path[i].as_str(), M { stages: t.created_stages[i], shuts_down: t.shuts_down[i], panics: t.panics[i] })) {
+                vfail!("valid-insertion-rejected", "inserting '{}' (its parent exists, the path is new) panicked: {msg} @ {loc}", t.path[i]);
+            }
             // rejected insertions after this step
             for (at, bad) in &case.bad {
                 if idx(*at, n) != k {
